@@ -150,6 +150,18 @@ class ConcreteCtx(_Base):
     def to_str(self, obj):
         return str(obj)
 
+    def ord1(self, ch):
+        return ord(ch)
+
+    def chr1(self, c):
+        return chr(c)
+
+    def lower_cp(self, c):
+        return c + 32 if 65 <= c <= 90 else c
+
+    def text_of(self, cps):
+        return ''.join(chr(c) for c in cps)
+
     def str_index(self, table, ch):
         return table.find(ch)
 
@@ -211,7 +223,7 @@ def make_symctx_class():
                 v = z3.BitVec(name, w)
                 if lo > 0 or hi != (1 << w) - 1:
                     self.ex.add(z3.And(z3.UGE(v, z3.BitVecVal(lo, w)), z3.ULE(v, z3.BitVecVal(hi, w))))
-                s = core.SymInt(v, lo, hi, False)
+                s = core.SymInt(v, lo, hi, False, lin=core.gf2_var(name, w) if w <= 64 else None)
             else:
                 w = core.need_s(lo, hi)
                 v = z3.BitVec(name, w)
@@ -231,7 +243,7 @@ def make_symctx_class():
                     self.ex.add(z3.And(v >= 0, v <= 255))
                     items.append(core.SymInt(v, 0, 255, None))
                 else:
-                    items.append(core.SymInt(z3.BitVec(nm, 8), 0, 255, False))
+                    items.append(core.SymInt(z3.BitVec(nm, 8), 0, 255, False, lin=core.gf2_var(nm, 8)))
             if mode == 'lia':
                 self.ex.model = None
             self.ex.inputs[name] = ('bytes', items)
@@ -244,7 +256,7 @@ def make_symctx_class():
                 v = z3.BitVec('%s_%d' % (name, i), w)
                 if lo > 0 or hi != (1 << w) - 1:
                     self.ex.add(z3.And(z3.UGE(v, z3.BitVecVal(lo, w)), z3.ULE(v, z3.BitVecVal(hi, w))))
-                items.append(core.SymInt(v, lo, hi, False))
+                items.append(core.SymInt(v, lo, hi, False, lin=core.gf2_var('%s_%d' % (name, i), w)))
             self.ex.model = None
             self.ex.inputs[name] = ('str', items)
             return vtypes.VStr._mk(list(items))
@@ -327,6 +339,22 @@ def make_symctx_class():
         def to_str(self, obj):
             r = type(obj).__str__(obj)
             return r
+
+        def ord1(self, ch):
+            if isinstance(ch, vtypes.VStr):
+                return ch._d[0]
+            return ord(ch)
+
+        def chr1(self, c):
+            if isinstance(c, core.SymInt):
+                return vtypes.VStr._mk([c])
+            return chr(c)
+
+        def lower_cp(self, c):
+            return vtypes._lower(c)
+
+        def text_of(self, cps):
+            return vtypes.VStr._mk(list(cps))
 
         def str_index(self, table, ch):
             return vtypes.VStr(table).find(ch)
